@@ -11,7 +11,7 @@ ANCHORS = ["group_scores.py:GroupScores.__init__", "group_scores.py:GroupScores.
            "group_scores.py:GroupScores.group_cm", "group_scores.py:GroupScores.bootstrap_sample", "group_scores.py:GroupScores._sampling_method",
            "group_scores.py:groupwise.<locals>.groupwise_metric"]
 RAISES_ARE_VIOLATIONS = True
-DECIDING = {"M-bs": 8000, "M-gs": 4000, "R-gs": 4000}
+DECIDING = {"M-bs": 43850, "M-gs": 19549, "R-gs": 5660}
 THOROUGH_EXTRA = ["W2", "W3"]
 RULE = (
     "Sources use unique score values, so owner[value] = (class, group) makes every history unambiguous. M-gs judges every GroupScores "
@@ -46,7 +46,12 @@ def cases(ctx):
         pg = rng.choice(names, npos)
         ng = rng.choice(names[: max(1, G - int(rng.integers(0, 2)))], nneg)  # sometimes a group lacks negatives
         sc, ec = gen.cfg(rng)
-        yield {"pos": allv[:npos], "neg": allv[npos:], "pg": [str(g) for g in pg], "ng": [str(g) for g in ng], "sc": sc, "ec": ec,
+        gn = None
+        if rng.random() < 0.3:  # explicitly given group names: used as is, not sorted (may also list a group without data)
+            present = sorted(set(str(g) for g in pg) | set(str(g) for g in ng))
+            extra = [n for n in names if n not in present][: int(rng.integers(0, 2))]
+            gn = [str(x) for x in rng.permutation(present + extra)]
+        yield {"pos": allv[:npos], "neg": allv[npos:], "pg": [str(g) for g in pg], "ng": [str(g) for g in ng], "sc": sc, "ec": ec, "group_names": gn,
                "big": big, "thr_u": rng.uniform(0, 1, 4), "_seed": int(rng.integers(1 << 31))}
 
 
@@ -83,11 +88,16 @@ def execute(ctx, case):
     pg, ng = np.asarray(case["pg"]), np.asarray(case["ng"])
     rs = np.random.default_rng(case["_seed"])
     np.random.seed(case["_seed"])
-    gs = GroupScores(pos, neg, pos_groups=pg, neg_groups=ng, score_class=sc, equal_class=ec)  # judged by M-gs
+    gn = case.get("group_names")
+    if gn is None:
+        gs = GroupScores(pos, neg, pos_groups=pg, neg_groups=ng, score_class=sc, equal_class=ec)  # judged by M-gs
+    else:
+        gs = GroupScores(pos, neg, pos_groups=pg, neg_groups=ng, score_class=sc, equal_class=ec, group_names=np.asarray(gn))
+        sess.check("R-gs", [str(g) for g in gs.groups] == gn, "explicit group_names are not used as given", {"given": gn, "got": [str(g) for g in gs.groups]}, key="gs-group-names")
     owner = {float(v): ("p", str(g)) for v, g in zip(pos, pg)}
     owner.update({float(v): ("n", str(g)) for v, g in zip(neg, ng)})
     gs._vmon_owner = owner  # ground truth from the *inputs*, used by M-bs for every sample of gs
-    sig = (sc, ec, len(set(pg) | set(ng)), "big" if case["big"] else "small")
+    sig = (sc, ec, len(set(pg) | set(ng)), "big" if case["big"] else "small", "names" if case.get("group_names") else "-")
     w = lambda **kw: (lambda: dict({"pos": pos, "pos_groups": list(pg), "neg": neg, "neg_groups": list(ng), "cfg": [sc, ec]}, **kw))  # noqa: E731
     sess.observe("R-gs")
     C = lambda ok, what, key, **kw: sess.check("R-gs", bool(ok), what, w(**kw), sig=sig, key=key)  # noqa: E731
@@ -105,13 +115,13 @@ def execute(ctx, case):
 
     def op_swap():
         sw = gs.swap()
-        C(attached(sw, True) and (sw.score_class.value, sw.equal_class.value) == (FLIP[sc], FLIP[ec]) and list(sw.groups) == list(gs.groups)
+        C(attached(sw, True) and (sw.score_class.value, sw.equal_class.value) == (FLIP[sc], FLIP[ec]) and sorted(sw.groups) == sorted(set(pg) | set(ng))
           and len(sw.pos) == len(neg) and len(sw.neg) == len(pos), "swap(): labels detached, flags not flipped or groups changed", "gs-swap")
 
     def op_from_labels():
         fl = GroupScores.from_labels(np.concatenate([np.ones(len(pos), int), np.zeros(len(neg), int)]), np.concatenate([pos, neg]), np.concatenate([pg, ng]),
                                      score_class=sc, equal_class=ec)
-        C(fl == gs and list(fl.groups) == list(gs.groups), "from_labels differs from the constructor", "gs-from-labels")
+        C(fl == gs and list(fl.groups) == sorted(set(pg) | set(ng)), "from_labels differs from the constructor", "gs-from-labels")
 
     def op_group_cm(tag=""):
         gcm = gs.group_cm(ths).matrix
